@@ -228,7 +228,7 @@ def struct_type(draw, o, defs, names, depth, kind="struct", name=None, top=False
         if o["arrays"] and roll >= athr and base["k"] != "p" or (o["arrays"] and base["k"] == "p" and roll >= 17):
             forms = ["fixed", "fixed", "fixed"]
             base_dyn = Sem(defs, {"endian": "<"}).size(base) is None
-            if o["expr"] and int_fields and not is_dyn_union_ctx and Sem(defs, {"endian": "<"}).size(base) != 0:
+            if o["expr"] and int_fields and not is_dyn_union_ctx and Sem(defs, {"endian": "<"}).min_size(base) != 0:
                 # zero-size elements under a data-dependent count never reach end of input: a raw count of 2^60 would
                 # allocate without bound in any parser (not a subject of the listed properties)
                 forms += ["expr", "expr"]
@@ -237,7 +237,7 @@ def struct_type(draw, o, defs, names, depth, kind="struct", name=None, top=False
                 forms.append("null")
             if o["eof"] and not o.get("align_hint") and top and i == nf and not is_dyn_union_ctx and kind == "struct":
                 forms.append("eof")
-            if Sem(defs, {"endian": "<"}).size(base) == 0:
+            if Sem(defs, {"endian": "<"}).min_size(base) == 0:
                 forms = [f for f in forms if f not in ("eof", "null")]  # zero-size elements: extent undefined
             form = draw(st.sampled_from(forms))
             if form == "fixed":
